@@ -14,7 +14,7 @@ def sh(cmd, cwd):
 def run(out, k, with_patch):
     meta = json.load(open(os.path.join(out, "meta%s.json" % k)))
     cmd = meta["demo"] if isinstance(meta["demo"], str) else " && ".join(meta["demo"])
-    cmd = re.split(r"\s\((?=[a-zA-Z`'])", cmd)[0]           # trailing explanation in parentheses
+    cmd = re.split(r"\s\((?=[a-zA-Z`'0-9])", cmd)[0]         # trailing explanation in parentheses
     wt = tempfile.mkdtemp(prefix="seeddemo-", dir="/tmp"); os.rmdir(wt)
     try:
         subprocess.run("git -C /repo worktree add -q %s HEAD" % wt, shell=True, check=True)
